@@ -41,6 +41,9 @@ def grammar(level):
         combos = [c for c in combos if c in pick]
     for c in combos:
         out.append(("one%s" % "".join(map(str, c)), one_element(*c)))
+    # the `text` keyword (tal:content="text expr") is the default spelled out
+    out.append(("one-text-content", one_element(0, 0, 0, 1, 0, 0, structure="text")))
+    out.append(("one-text-replace", one_element(0, 0, 0, 2, 0, 0, structure="text")))
     if level >= 1:
         out.append(("one-structure-content", one_element(0, 0, 0, 1, 0, 0, structure=True)))
         out.append(("one-structure-replace", one_element(0, 0, 1, 2, 0, 0, structure=True)))
